@@ -61,6 +61,7 @@ def premise_ok(case):
 
 
 EXEC = ('entry', 'exit', 'action')
+UNDOCUMENTED = ('EAssert', 'EKey', 'EOther', 'EStatechart')
 CONTRACT = ('pre', 'inv', 'post')
 
 
@@ -92,6 +93,12 @@ def run(prop, tier, seed, profile, spec, interest, proof_files, n_quick=2200, n_
         m = masks.get(idx, 0)
         mask, fdk, mcode = ifam.decode(m) if m else (0, None, ifam.impl_outcome(case))
         clause = interest(mask, fdk, mcode, case)
+        if clause is None and (mask & B.OUTCOME) and ifam.impl_outcome(case) in UNDOCUMENTED and mcode not in UNDOCUMENTED:
+            # whatever the property says about this step, the step did not take place: the call ended with an exception that is
+            # none of the documented ones (NonDeterminismError, ConflictingTransitionsError, ContractError,
+            # CodeEvaluationError, PropertyStatechartError) where the documented semantics gives a normal outcome
+            clause = 'the call raised an undocumented exception (%s) where the documented semantics gives %s: the step did not take place' % (
+                case['out'][1], mcode)
         if clause is None:
             other += 1 if m else 0
             continue
